@@ -22,13 +22,14 @@ def cases(ctx):
 class StubRegressor:
     def __init__(self):
         self.fits = 0
+        self.next_score = 1.0
 
     def fit(self, x, y):
         self.fits += 1
         self.nx, self.ny = len(x), len(y)
 
     def score(self, x, y):
-        return 1.0
+        return self.next_score
 
     def predict(self, xs, return_std=False):
         return [[0.0]]
@@ -95,13 +96,23 @@ def run_case(ctx, name, params):
         s = SurrogateModelEval(p)
         trained0 = True
     p.surrogate = s
+    # training data that is already there (add_data / read_from_data_store before the run): retraining is tied to the number of
+    # true evaluations, not to the size of the training set
+    preseed = []
+    if kind != "passthrough" and r.random() < 0.5:
+        for _ in range(r.randint(1, 7)):
+            xv = [r.uniform(-1, 1) for _ in range(n)]
+            yv = [sum(xv) + 0.5]
+            s.add_data(xv, yv)
+            preseed.append((xv, yv))
     via_algorithm = r.random() < 0.3
     alg = DummyAlgorithm(p) if via_algorithm else None
 
     # reference model
-    M = {"eval": 0, "pred": 0, "x": [], "y": [], "train": 0, "trained": trained0, "calls": 0}
+    M = {"eval": 0, "pred": 0, "x": [list(a) for a, b in preseed], "y": [list(b) for a, b in preseed], "train": 0,
+         "trained": trained0, "calls": 0}
     saw_pred = saw_eval = saw_train = False
-    wit = lambda k: {"kind": kind, "train_step": train_step, "trained_at_start": trained0, "hook": hook_mode,
+    wit = lambda k: {"kind": kind, "train_step": train_step, "preseeded_samples": len(preseed), "trained_at_start": trained0, "hook": hook_mode,
                      "script": script[:40], "request": k, "via_algorithm": via_algorithm,
                      "observed": {"eval_counter": s.eval_counter, "predict_counter": s.predict_counter,
                                   "x_data": len(s.x_data), "y_data": len(s.y_data),
@@ -112,6 +123,8 @@ def run_case(ctx, name, params):
         vec = [r.uniform(-1, 1) for _ in range(n)]
         ind = Individual(vec)
         hk_before = hook_calls[0]
+        if kind == "scikit_stub":
+            s.regressor.next_score = r.choice([1.0, 0.9, 0.2, -3.0, 0.5])     # how well the regressor fits is not the wrapper's business
         try:
             if via_algorithm:
                 alg.evaluate([ind])
